@@ -189,6 +189,23 @@ impl<T: InternalVertexInfo + super::sealed::__Sealed> VertexInfo for T {
                 .map(RequiredProperty::new)
         }));
 
+        // Tags on this vertex that are used by folds starting in this component: either
+        // in a filter on the fold's count, or imported into the fold's (nested) components.
+        let properties = properties.chain(current_component.folds.values().flat_map(|fold| {
+            let post_filter_tags = fold.post_filters.iter().filter_map(|f| match f.right() {
+                Some(Argument::Tag(FieldRef::ContextField(ctx))) => Some(ctx),
+                _ => None,
+            });
+            let imported_tags = fold.imported_tags.iter().filter_map(|field_ref| match field_ref {
+                FieldRef::ContextField(ctx) => Some(ctx),
+                FieldRef::FoldSpecificField(..) => None,
+            });
+            post_filter_tags
+                .chain(imported_tags)
+                .filter(|ctx| ctx.vertex_id == current_vertex.vid)
+                .map(|ctx| RequiredProperty::new(ctx.field_name.clone()))
+        }));
+
         let mut seen_property = HashSet::new();
         Box::new(properties.filter(move |r| seen_property.insert(r.name.clone())))
     }
